@@ -139,6 +139,28 @@ theorem flatMapR {P : α → Prop} {Q : β → Prop} {f : α → R (List β)} {l
     | panic s => rw [hfx] at hx; exact hx
     | fuel => trivial
 
+/-- `mapR` with the pointwise relation between inputs and outputs -/
+theorem mapR_rel {P : α → Prop} {Rel : α → β → Prop} {f : α → R β} {l : List α}
+    (h : ∀ x ∈ l, P x → Safe G (Rel x) (f x)) (hl : ∀ x ∈ l, P x) :
+    Safe G (fun ys => List.Forall₂ Rel l ys) (TF.Engine.mapR f l) := by
+  induction l with
+  | nil => simp [TF.Engine.mapR]
+  | cons x xs ih =>
+    have hx := h x (by simp) (hl x (by simp))
+    have ih' := ih (fun y hy => h y (by simp [hy])) (fun y hy => hl y (by simp [hy]))
+    simp only [TF.Engine.mapR]
+    cases hfx : f x with
+    | ok y =>
+      rw [hfx] at hx
+      cases hm : TF.Engine.mapR f xs with
+      | ok ys =>
+        rw [hm] at ih'
+        exact List.Forall₂.cons hx ih'
+      | panic s => rw [hm] at ih'; exact ih'
+      | fuel => trivial
+    | panic s => rw [hfx] at hx; exact hx
+    | fuel => trivial
+
 end Safe
 
 end TF.Engine
